@@ -24,49 +24,40 @@ func c05EveryEntryInserted(c *core.Ctx) {
 	cons := fname(ipf, "", "New")
 	body := c05RangerBuilder(f)
 	vf := newMuxFlow([]*flow.Func{body})
-	// the loop over the configured entries: the range / counting loop over a []string whose body inserts
+	sinks, stagingOK, partial := c05SinksX(body)
+	if partial != nil {
+		c.Violate("R-C05-5", cons+"|all entries are visited", pos(c, partial), "the loop that inserts the staged entries into the ranger does not visit every entry (it starts late, steps unevenly or can be left early): configured addresses/CIDRs are ignored")
+	}
+	isSink := map[*ast.CallExpr]bool{}
+	for _, s := range sinks {
+		isSink[s] = true
+	}
+	// the loop over the configured entries: the range / counting loop over a []string whose body commits entries
 	var loop *muxLoop
 	for _, l := range vf.loops("entries", func(x ast.Expr) bool {
 		tv, ok := f.Info.Types[x]
 		return ok && tv.Type != nil && tv.Type.String() == "[]string"
 	}) {
 		for _, call := range calls(l.body(), false) {
-			if c05IsInsert(f, call) && loop == nil {
+			if isSink[call] && loop == nil {
 				loop = l
 			}
 		}
 	}
-	if loop == nil {
+	if loop == nil || !stagingOK {
 		c.Undecide("R-C05-5", cons+"|every parsed entry is inserted", pos(c, body.Body), "no loop over the configured entries inserts into the ranger")
 		return
 	}
-	var ipID, errID *ast.Ident
-	ast.Inspect(loop.body(), func(n ast.Node) bool {
-		as, ok := n.(*ast.AssignStmt)
-		if !ok || len(as.Rhs) != 1 {
-			return true
-		}
-		if call, ok := ast.Unparen(as.Rhs[0]).(*ast.CallExpr); ok {
-			switch calleeFull(f, call) {
-			case "net.ParseIP":
-				ipID, _ = as.Lhs[0].(*ast.Ident)
-			case "net.ParseCIDR":
-				if len(as.Lhs) == 3 {
-					errID, _ = as.Lhs[2].(*ast.Ident)
-				}
-			}
-		}
-		return true
-	})
+	ipID, errID := c05ParseVars(body)
 	if ipID == nil || errID == nil {
 		return // reported by the first half of R-C05-5
 	}
 	ipNil, errNil := body.NilKey(ipID), body.NilKey(errID)
 	var bad *flow.State
 	iters := 0
-	res := analyze(c, body, flow.Config{NoHavoc: true,
+	res := muxAnalyzeInl(c, body, flow.Config{NoHavoc: true,
 		OnCall: func(st *flow.State, call *ast.CallExpr, callee types.Object, deferred bool) {
-			if c05IsInsert(f, call) && contains(loop.stmt, call) {
+			if isSink[call] {
 				st.Set("ev:inserted", flow.True)
 			}
 		},
